@@ -1,7 +1,7 @@
 SPECIFICATION TSpec
 CONSTANTS
   Threads = {1, 2}
-  Dev = {"gateAnyOrder"}
+  Dev = {"gateAnyOrder", "cycleUnobserved"}
   LenientGenDrop = TRUE
   LenientOrder = FALSE
 CONSTRAINT HighWater
